@@ -395,6 +395,25 @@ fn process_transactions(
         }
     }
 
+    // Withholding rows whose (date, symbol) matched no dividend row were not attached to
+    // anything above: surface them instead of dropping them silently.
+    let mut unmatched_taxes: Vec<((NaiveDate, String), Decimal)> = dividend_taxes.into_iter().collect();
+    unmatched_taxes.sort_by(|a, b| a.0.cmp(&b.0));
+    for ((date, symbol), amount) in unmatched_taxes {
+        let comment = format!(
+            "SKIPPED: tax withholding of {} for {} on {} has no dividend on that date",
+            amount,
+            symbol,
+            date.format("%Y-%m-%d")
+        );
+        warnings.push(format!(
+            "Tax withholding of {} for {} on {} has no matching dividend — skipped.",
+            amount, symbol, date
+        ));
+        cgt_transactions.push(CgtTransaction::Comment { comment });
+        skipped_count += 1;
+    }
+
     // Apply deferred cancellations: remove original sells that were cancelled.
     // This must happen after all transactions are processed because Cancel Sell
     // entries can appear before their corresponding original Sell in the JSON.
